@@ -209,3 +209,64 @@ def _declref(fn, did):
         if x.kind == "DeclRefExpr" and x.d["d"] == did:
             return x
     raise AnalysisBroken("local %d never referenced" % did)
+
+
+def check_trailing_pointer(ctx, unit, rule="H.chain-unlink"):
+    """remove(): the node is unlinked from the head slot when it is the first of its chain and from its
+    predecessor's next link otherwise; the predecessor variable must follow the walk (be set to the current
+    node on every path that continues the loop), otherwise unlinking a later node cuts off the nodes before it."""
+    ctx.rule(rule, "hash_map::remove unlinks through the table slot or the predecessor's next link, and the predecessor "
+             "variable is advanced to the current node on every path around the chain walk", 1)
+    for rec in recs_of(unit, MAP):
+        for f in cls_fns(unit, rec["qn"]):
+            if f.name != "remove":
+                continue
+            inits = RA.local_inits(f)
+            # predecessor variable: local initialised to null that is compared with null in the match arm
+            cands = [d for d, i in inits.items() if i.strip().get("nullc") or i.strip().kind == "CXXNullPtrLiteralExpr"
+                     or any(x.kind == "CXXNullPtrLiteralExpr" for x in i.walk())]
+            prev = None
+            for blk in f.blocks.values():
+                if blk.cond is not None:
+                    c = f.node(blk.cond).strip()
+                    if c.kind == "BinaryOperator" and c.op in ("==", "!="):
+                        l = c.children[0].strip()
+                        if l.kind == "DeclRefExpr" and l.d["d"] in cands:
+                            prev = l.d["d"]
+            problems = []
+            if prev is None:
+                problems.append("no predecessor variable that selects between head-unlink and mid-chain unlink")
+            else:
+                # loop variable of the chain walk
+                loopvar = None
+                hdr = None
+                for blk in f.blocks.values():
+                    if blk.termkind == "ForStmt" and blk.cond is not None:
+                        c = f.node(blk.cond).strip()
+                        if c.kind == "BinaryOperator" and c.op == "!=":
+                            l = c.children[0].strip()
+                            if l.kind == "DeclRefExpr":
+                                loopvar, hdr = l.d["d"], blk.id
+                if loopvar is None:
+                    problems.append("chain walk loop not found")
+                else:
+                    from .rules_parse import check_loop_progress
+
+                    class _C:
+                        def __init__(self): self.ok = True; self.rules_text = {}; self.minima = {}
+                        def inst(self, rule, inst, ok, *a, **k):
+                            self.ok = self.ok and ok
+                    cc = _C()
+                    check_loop_progress(cc, "x", f, lambda n: n.kind == "BinaryOperator" and n.op == "=" and
+                                        n.children[0].strip().kind == "DeclRefExpr" and n.children[0].strip().d["d"] == prev and
+                                        n.children[1].strip().kind == "DeclRefExpr" and n.children[1].strip().d["d"] == loopvar)
+                    if not cc.ok:
+                        problems.append("a path around the chain walk does not advance the predecessor variable to the current node")
+                # both unlink forms exist
+                ws = [n for n in f.events() if n.kind == "BinaryOperator" and n.op == "=" and "next" in canon(n.children[1])]
+                heads = [n for n in ws if n.children[0].strip().kind == "ArraySubscriptExpr"]
+                mids = [n for n in ws if path(n.children[0]) and path(n.children[0])[-1] == "next" and path(n.children[0])[0].endswith("#%d" % prev)]
+                if not heads or not mids:
+                    problems.append("unlink forms found: table slot %d, predecessor link %d" % (len(heads), len(mids)))
+            ctx.inst(rule, f.sig, not problems, f.loc, "; ".join(problems) if problems else
+                     "predecessor follows the walk; both unlink forms present", f)
